@@ -10,6 +10,7 @@ violation.
 """
 import contextlib
 import math
+import re
 
 from .. import core, k1, solver, traces, universe as U
 
@@ -67,6 +68,24 @@ def safe(f):
         return None
 
 
+_RANGE_MSG = re.compile(r"Give (\S+) value is not in \[0, 1\] range")
+
+
+def raised_by_margin(exc):
+    """True iff the exception is the Composition range error and the offending value is outside [0, 1] by a clear margin
+    (then the mirrored fraction 1-p of the relabelled twin is outside by the same margin and the twin must raise too)."""
+    if not isinstance(exc, ValueError):
+        return False
+    m = _RANGE_MSG.search(str(exc))
+    if not m:
+        return False
+    try:
+        val = float(m.group(1))
+    except ValueError:
+        return False
+    return val < -1e-6 or val > 1 + 1e-6
+
+
 def pv_pair(mix, P, t_ref, ea=(25000.0, 60000.0)):
     sw = U.swap_mixture(mix)
     a = solver.ObservedPV(membrane=U.make_membrane(mix, P[0], P[1], t_ref=t_ref, ea1=ea[0], ea2=ea[1]), mixture=mix).observe(budget=BUDGET, detect=False)
@@ -114,7 +133,9 @@ def judge_l1(case):
         sb, jb = core.call(b.calculate_partial_fluxes, feed_temperature=t, composition=cb, precision=PREC, calculation_type=model, **kw)
         if sa != "ok" or sb != "ok":
             state["n"] = -1
-            return []  # raising twins are not judged here (near-equilibrium orbits may end one iteration apart)
+            if (sa == "ok") != (sb == "ok") and raised_by_margin(ja if sa != "ok" else jb):
+                return ["one labelling returns %r while the other raises %r" % ((ja if sa == "ok" else jb), (ja if sa != "ok" else jb))]
+            return []  # otherwise raising twins are not judged (near-equilibrium orbits may end one iteration apart)
         state["n"] = 1
         out = []
         if not all(float(j) > 0 for j in (ja[0], ja[1], jb[0], jb[1])):
@@ -189,6 +210,44 @@ def judge_l2(case):
     return core.result("judged" + (":K1" if any(w["known"] for w in v) else ""), digest=core.digest_of(case), viol=v)
 
 
+def judge_l2b(case):
+    """curves built from STATED permeances (one unit per component) and their relabelled twins."""
+    mix = U.get_mixture(case["mixture"])
+    sw = U.swap_mixture(mix)
+    t, xs, units = case["T"], case["xs"], case["units"]
+    base = [(3.1e-2 * (1 + 0.4 * i), 4.7e-4 * (1 + 0.7 * i)) for i in range(len(xs))]
+
+    def perm(v, unit, comp):
+        p = U.Permeance(value=v, units=U.Units.kg_m2_h_kPa)
+        return p if unit == U.Units.kg_m2_h_kPa else p.convert(to_units=unit, component=comp)
+
+    pa = [(perm(b[0], units[0], mix.first_component), perm(b[1], units[1], mix.second_component)) for b in base]
+    pb = [(perm(b[1], units[1], sw.first_component), perm(b[0], units[0], sw.second_component)) for b in base]
+    sa, ca = core.call(U.DiffusionCurve, mixture=mix, membrane_name="M", feed_temperature=t, feed_compositions=[U.Composition(p=x, type="weight") for x in xs], permeances=pa)
+    sb, cb = core.call(U.DiffusionCurve, mixture=sw, membrane_name="M", feed_temperature=t, feed_compositions=[U.Composition(p=1 - x, type="weight") for x in xs], permeances=pb)
+    if sa != "ok" or sb != "ok":
+        return core.result("not-judged:raised", nontrivial=False)
+    v = []
+    for i in range(len(xs)):
+        fa, fb = ca.partial_fluxes[i], cb.partial_fluxes[i]
+        if not (core.close(float(fa[0]), float(fb[1]), 1e-9) and core.close(float(fa[1]), float(fb[0]), 1e-9)):
+            v.append(core.viol("C06/L2/curve_from_permeances", "point %d: fluxes %r, relabelled twin %r (permeance units per component %r)" % (i, fa, fb, units)))
+            break
+        if not (core.close(float(ca.permeances[i][0].value), float(cb.permeances[i][1].value), 1e-9) and core.close(float(ca.permeances[i][1].value), float(cb.permeances[i][0].value), 1e-9)):
+            v.append(core.viol("C06/L2/curve_from_permeances", "point %d: exposed permeances %r, relabelled twin %r" % (
+                i, (ca.permeances[i][0].value, ca.permeances[i][1].value), (cb.permeances[i][0].value, cb.permeances[i][1].value))))
+            break
+        sfa, sfb = safe(lambda: float(ca.get_separation_factor[i])), safe(lambda: float(cb.get_separation_factor[i]))
+        if sfa is not None and sfb is not None and not core.close(sfa * sfb, 1.0, 1e-8):
+            v.append(core.viol("C06/L2/curve_from_permeances", "point %d: separation factors %r and %r do not invert" % (i, sfa, sfb)))
+            break
+        sla, slb = safe(lambda: float(ca.get_selectivity[i])), safe(lambda: float(cb.get_selectivity[i]))
+        if sla is not None and slb is not None and not core.close(sla * slb, 1.0, 1e-8):
+            v.append(core.viol("C06/L2/curve_from_permeances", "point %d: selectivities %r and %r do not invert" % (i, sla, slb)))
+            break
+    return core.result("judged", digest=core.digest_of(case), viol=v)
+
+
 def judge_l3(case):
     mix = U.get_mixture(case["mixture"])
     model = case["model"]
@@ -208,6 +267,8 @@ def judge_l3(case):
         sb, pb = tw.run()
         if sa != "ok" or sb != "ok":
             state["n"] = -1
+            if (sa == "ok") != (sb == "ok") and raised_by_margin(pa if sa != "ok" else pb):
+                return ["one labelling returns a trajectory while the other raises %r" % ((pa if sa != "ok" else pb),)]
             return []
         ta, tb = traces.extract(pa), traces.extract(pb)
         state["n"] = 1
@@ -283,8 +344,11 @@ def main(tier, seed):
     core.run_space(rep, core.Space("L1_solver", {"mixture": mixes, "model": ["NRTL", "UNIQUAC"], "mode": modes, "P": Ps, "T": ts[:2] if q else ts, "x": xs}, ok), judge_l1)
     core.run_space(rep, core.Space("L2_curves", {"mixture": mixes, "model": ["NRTL", "UNIQUAC"], "mode": modes, "P": Ps, "T": ts[:2] if q else ts[1:6],
                                                  "xs": [xs[:3], xs[2:]]}, ok), judge_l2)
+    un = [U.Units.kg_m2_h_kPa, "SI", "GPU"]
+    core.run_space(rep, core.Space("L2b_curves_from_permeances", {"mixture": [m for m in mixes if U.get_mixture(m).nrtl_params is not None], "T": ts[:2],
+                                                                 "xs": [xs[:2], xs[2:4]], "units": [(a, b) for a in un for b in un]}), judge_l2b)
     l3 = {"kind": ["ideal_iso", "ideal_noniso"], "mixture": mixes, "model": ["NRTL", "UNIQUAC"], "mode": ["vac", ("T", -20.0), ("p", 0.5)],
-          "prog": ["none", "poly"], "area": [0.05, 1.0], "amount": [50.0] if q else [0.047, 50.0], "dt": core.lat([0.1, 2.0], seed),
+          "prog": ["none", "poly"], "area": [0.05, 1.0], "amount": [0.047, 50.0], "dt": core.lat([0.1, 2.0], seed),
           "steps": [1, 4] if q else [1, 3, 8], "x0": core.lat([0.1, 0.6], seed) if q else core.lat([0.1, 0.45, 0.9], seed), "basis": ["weight"],
           "T": core.lat([313.15, 353.15], seed)[:1] if q else core.lat([313.15, 353.15], seed), "P": [(1e-3, 2e-5)], "ea": [(25000.0, 60000.0)],
           "tref_offset": [0.0, -12.0], "precision": [PREC]}
@@ -293,7 +357,7 @@ def main(tier, seed):
 
 
 def replay(body):
-    fn = {"L0_thermodynamics": judge_l0, "L1_solver": judge_l1, "L2_curves": judge_l2, "L3_ideal_traces": judge_l3}[body["space"]]
+    fn = {"L0_thermodynamics": judge_l0, "L1_solver": judge_l1, "L2_curves": judge_l2, "L2b_curves_from_permeances": judge_l2b, "L3_ideal_traces": judge_l3}[body["space"]]
     r = fn(body["case"])
     for v in r["viol"]:
         print("violation key=%s%s: %s" % (v["key"], " [known %s]" % v["known"] if v["known"] else "", v["msg"]))
